@@ -331,7 +331,7 @@ def config_grid(tier):
         grid = [("ansi", 10, 10, 0.1, 0, None), ("plain", 10, 10, 0.1, 0, None), ("section", 3, 28, 0, 0, None), ("quiet", 3, 10, 0.1, 0, None),
                 ("ansi", 0, 28, 0.1, 0, None), ("plain", 0, 10, 0, 0, None), ("ansi", 50, 40, 1, 1, None), ("plain", 50, 1, 1, 2, None),
                 ("ansi", 3, 10, 0, 4, FORMATS[1]), ("ansi", 10, 10, 0.1, 0, FORMATS[2]), ("section", 0, 10, 0.1, 0, None), ("plain", 1, 28, 0.1, 4, FORMATS[1]),
-                ("section-exact", 10, 10, 0, 0, None)]
+                ("section-exact", 10, 10, 0, 0, None), ("plain", 0, 10, 0, 0, "verbose"), ("ansi", 3, 10, 0, 0, "verbose")]
     else:
         grid = []
         k = 0
@@ -380,6 +380,8 @@ def run(sh, spec):
             kind = rng.choice(["ansi", "ansi", "plain", "plain", "section", "quiet"])
             mx = rng.choice([0, 1, 3, 10, 50, 200])
             fmt = rng.choice(FORMATS) if (mx and kind != "quiet") else None
+            if kind != "quiet" and rng.random() < 0.15:
+                fmt = rng.choice(["normal", "verbose"])  # a format given by its name (the *_nomax variant is picked for a bar without maximum)
             cfg = dict(out=kind, max=mx, bw=rng.choice([1, 2, 10, 28, 40]), minsec=rng.choice([0, 0.1, 1]), verbosity=rng.choice([0, 1, 2, 4]), fmt=fmt,
                        via_io=rng.random() < 0.25, maxsec=rng.choice([None, None, 0.02, 0.5, 3]))
             if kind == "section" and rng.random() < 0.4:
